@@ -32,6 +32,7 @@ class C07(Prop):
                   "all of it while the user callback raises on scheduled invocations.")
     level_note = "asyncio's isolation of protocol-callback exceptions is observed, not verified; delivery of gate-passing frames with undecodable fields is unspecified (only their effect on later datagrams is judged)"
     assumptions = ["loopback UDP between one socket pair is ordered", "kernel datagram loss makes a history inconclusive"]
+    warnings_as_errors = False   # unknown models are *reported by a warning*: under an error filter that is an exception by design
     anchors = ["aioswitcher.bridge:SwitcherBridge.start", "aioswitcher.bridge:UdpClientProtocol.datagram_received",
                "aioswitcher.bridge:_parse_device_from_datagram"]
     min_evaluations = {"quick": 80_000, "thorough": 800_000}
@@ -165,8 +166,17 @@ class C07(Prop):
             log.raise_on = lambda dev, n: dev.device_id in raising_tags
         else:
             log.raise_on = None
-        bridge = self.Bridge(log.callback) if use_defaults else self.Bridge(log.callback, ports)
+        # the callback: the harness's own bound method, or a bound method of a consumer object that nobody else references
+        unheld = i % 7 == 3
+        cb = udp.Relay(log).on_device if unheld else log.callback
+        bridge = self.Bridge(cb) if use_defaults else self.Bridge(cb, ports)
+        del cb
         await bridge.start()
+        if unheld:
+            import gc
+
+            gc.collect()
+            acc.count("histories_with_a_consumer_object_nobody_else_holds")
         # somebody else in the process tries to listen on the same ports with a callback of their own: either that fails
         # (address in use) or, if it is allowed, the first bridge must still get every broadcast sent to its ports
         stolen = []
@@ -287,6 +297,23 @@ class C07(Prop):
                     if k2 < len(devs):
                         for field, g, w in rb.compare_device(devs[k2], d):
                             acc.violation(f"decoded-device-wrong:{field}", f"{d['model']}: {field} = {g!r}, want {w!r}", {"desc": d})
+        if i % 9 == 4 and not use_defaults:
+            # the application restarts its event loop (asyncio.run a second time) and starts the same bridge object again
+            log.raise_on = None
+            probe = []
+            for n in range(5):
+                t = self._next_tag()
+                probe.append(rb.encode(gen.broadcast_desc(r, gen.MODELS[(i + n) % 9], n, t)))
+            loop = asyncio.get_running_loop()
+            try:
+                seen = await asyncio.wait_for(loop.run_in_executor(None, udp.second_loop_probe, lambda: bridge, ports[0], probe, log, self.rig.sender), 30)
+            except Exception as exc:
+                seen = f"{type(exc).__name__}: {exc}"
+            acc.ev(len(probe))
+            acc.count("broadcasts_to_the_same_bridge_in_a_second_event_loop", len(probe))
+            if seen != len(probe):
+                acc.violation("deliveries-stopped:second-event-loop", f"the bridge object of this history, started again in a new event loop of the same process, "
+                              f"delivered {seen} of {len(probe)} valid broadcasts", {"ports": ports, "delivered": str(seen)})
         acc.ev(n_dg)
         acc.count("histories")
         acc.count(f"ports_{nports}")
